@@ -456,7 +456,7 @@ def run(run):
                         run.undecided("R4", key, "first neighbour of a node of unknown kind is unwrapped: %s" % fmt(t), F.loc(node))
                     continue
                 run.undecided("R4", "%s|unwrap|%s" % (label, fmt(t)[:60]), "unwrap of a program-dependent value without a known construction fact", F.loc(node))
-        run.floor("unwrap sites examined", n, 2)
+        run.floor("unwrap sites examined", n, 1)
         # cwe_367: panic unless the target of an ExternCallStub edge is a BlkStart -> construction fact
         run.note("cwe_367: `panic!(\"Malformed control flow graph.\")` is reached only if the target of an ExternCallStub edge is not a BlkStart; both construction sites in graph.rs pass a BlkStart index (checked by C08/R1)")
 
